@@ -56,16 +56,24 @@ fn run_case(_kind: &str, idx: u64, rng: &mut Rng, mon: &mut Mon, _tier: Tier) {
     let depth = rng.usize(4);
     let layers = gen_stack(rng, depth, false, &["Tool", "Base", "Frame", "Parallelogram"]);
     let sname = stack_name(&layers);
-    let q = joints_uniform(rng, PI);
+    let mut q = joints_uniform(rng, PI);
+    // a tenth of the poses is exactly wrist-singular (model J5 = k*pi; stacks without couplings), with the
+    // generating vector as previous: the recovered solution must survive limits that admit it
+    let singular_pose = rng.bool(0.1) && !layers.iter().any(|l| matches!(l, Layer::Para { .. }));
+    if singular_pose {
+        place_t5(&rp, &mut q, rng.int(-1, 1) as i32, 0.0);
+        mon.count("wrist_singular_poses");
+    }
     let pose = fr_to_iso(&ref_forward(&rp, &layers, &q));
     let free = build(Arc::new(OPWKinematics::new(to_params(&rp))), &layers);
     let e = ENTRIES[rng.usize(4)];
     let j6 = rng.range(-PI, PI);
-    let prev = match rng.usize(4) {
+    let prev = match if singular_pose { 1 } else { rng.usize(4) } {
         0 => CONSTRAINT_CENTERED,
         1 => q,
         _ => joints_uniform(rng, 2.0 * PI),
     };
+    let sentinel = prev[0].is_nan();
     let unconstrained = match call(free.as_ref(), e, &pose, &prev, j6) {
         Ok(s) => s,
         Err(_) => {
@@ -154,7 +162,8 @@ fn run_case(_kind: &str, idx: u64, rng: &mut Rng, mon: &mut Mon, _tier: Tier) {
             // inside the wrist-singularity band the solutions form a continuum (any J4/J6 split with the
             // right sum); which member the continuation solver returns depends on the previous vector,
             // and with the sentinel the two solvers resolve 'previous' differently (zeros vs. centres)
-            if rp.theta(&inner)[4].sin().abs() < 3.0e-4 {
+            // (with a real previous vector both solvers recover the same member: no exemption then)
+            if rp.theta(&inner)[4].sin().abs() < 3.0e-4 && (sentinel || !e.is_continuing()) {
                 mon.inconclusive("dropped-candidate-is-wrist-singular");
                 continue;
             }
